@@ -17,7 +17,7 @@ class Discard(Exception):
 
 class Model:
     """Primary state of one molecule as the documented meaning of the edits predicts it."""
-    __slots__ = ('atoms', 'bonds', 'name', 'meta', 'astereo', 'bstereo', 'xy')
+    __slots__ = ('atoms', 'bonds', 'name', 'meta', 'astereo', 'bstereo', 'xy', 'hyd', 'aromatic')
 
     def __init__(self):
         self.atoms = {}    # n -> (Z, isotope, charge, radical)
@@ -27,6 +27,8 @@ class Model:
         self.astereo = {}  # n -> bool            (raw labels as last verified)
         self.bstereo = {}  # (min, max) -> bool
         self.xy = {}       # n -> (x, y)   2D coordinates are part of the primary state
+        self.hyd = {}      # n -> implicit hydrogens; primary state only in aromatic (derive-only) mode, where they
+        self.aromatic = False   # cannot be recomputed (calc_implicit gives None for aromatic heteroatoms by design)
 
     def copy(self):
         c = Model()
@@ -37,6 +39,8 @@ class Model:
         c.astereo = dict(self.astereo)
         c.bstereo = dict(self.bstereo)
         c.xy = dict(self.xy)
+        c.hyd = dict(self.hyd)
+        c.aromatic = self.aromatic
         return c
 
     # ---- documented semantics of the edits
@@ -68,6 +72,7 @@ class Model:
         self.bonds = {g(n, n): {g(m, m): o for m, o in ms.items()} for n, ms in self.bonds.items()}
         self.astereo = {g(n, n): s for n, s in self.astereo.items()}
         self.xy = {g(n, n): v for n, v in self.xy.items()}
+        self.hyd = {g(n, n): v for n, v in self.hyd.items()}
         self.bstereo = {(min(g(n, n), g(m, m)), max(g(n, n), g(m, m))): s for (n, m), s in self.bstereo.items()}
 
     def induced(self, atoms):
@@ -77,6 +82,8 @@ class Model:
         c.bonds = {n: {m: o for m, o in ms.items() if m in atoms} for n, ms in self.bonds.items() if n in atoms}
         c.astereo = {n: s for n, s in self.astereo.items() if n in atoms}
         c.xy = {n: v for n, v in self.xy.items() if n in atoms}
+        c.hyd = {n: v for n, v in self.hyd.items() if n in atoms}
+        c.aromatic = self.aromatic
         c.bstereo = {k: s for k, s in self.bstereo.items() if k[0] in atoms and k[1] in atoms}
         return c
 
@@ -87,6 +94,7 @@ class Model:
         self.astereo.update(other.astereo)
         self.bstereo.update(other.bstereo)
         self.xy.update(other.xy)
+        self.hyd.update(other.hyd)
 
     def near(self, sources, dist):
         seen = set(x for x in sources if x in self.bonds)
@@ -127,6 +135,7 @@ def xy_of(mol):
 def resync(model, mol):
     model.atoms, model.bonds = primary_of(mol)
     model.xy = xy_of(mol)
+    model.hyd = {n: a._implicit_hydrogens for n, a in mol._atoms.items()}
     model.astereo, model.bstereo = stereo_of(mol)
     model.name = mol.name
     model.meta = dict(mol.meta) if mol._meta else {}
@@ -165,6 +174,8 @@ def rebuild(mol, model, astereo, bstereo):
     from chython.periodictable import Element
 
     r = MoleculeContainer()
+    r._name = model.name or None
+    r._meta = dict(model.meta) if model.meta else None
     ra, rb = r._atoms, r._bonds
     for n in mol._atoms:
         z, iso, ch, rad = model.atoms[n]
@@ -180,8 +191,12 @@ def rebuild(mol, model, astereo, bstereo):
                 rbn[m] = Bond(model.bonds[n][m])
     r.flush_cache()
     r.calc_labels()
-    for n in ra:
-        r.calc_implicit(n)
+    if model.aromatic:
+        for n, a in ra.items():
+            a._implicit_hydrogens = model.hyd.get(n)   # carried, not recomputable for aromatic forms
+    else:
+        for n in ra:
+            r.calc_implicit(n)
     r.flush_cache()
     # Labels are attached through the public labelling calls, one at a time, retried until no further label is
     # accepted (the way the file readers do it).  This path does not go through fix_stereo(), which is one of the
@@ -322,6 +337,7 @@ OBSERVERS = [
     ('hash', lambda m: hash(m)),
     ('len', lambda m: (len(m), m.atoms_count, list(m), bool(m))),
     ('xy', lambda m: [(n, a.x, a.y, tuple(a.xy)) for n, a in m.atoms()]),
+    ('meta', lambda m: (m.name, sorted(m.meta.items()))),     # reading .meta creates the lazy dict
     ('environment', lambda m: [(n, tuple(m.environment(n, include_bond=False, include_atom=False))) for n in m]),
 ]
 OBS_INDEX = {k: i for i, (k, _) in enumerate(OBSERVERS)}
